@@ -206,6 +206,79 @@ impl Spec {
         s
     }
 
+    /// A sibling of exactly the same shape (the same number of elements of every kind, the same
+    /// lengths) with different values: what a state keyed by counts or sizes cannot tell apart.
+    pub fn sibling_same_shape(&self) -> Spec {
+        let mut s = self.clone();
+        fn fci(f: &mut Fci) {
+            match f {
+                Fci::Nack { seqs } => seqs.iter_mut().for_each(|q| *q = q.wrapping_mul(3).wrapping_add(1000)),
+                Fci::Fir { entries } => entries.iter_mut().for_each(|e| *e = (e.0 ^ 0x0101_0101, e.1.wrapping_add(1))),
+                Fci::Sli { entries } => entries.iter_mut().for_each(|e| *e = ((e.0 + 1) & 0x1fff, e.1, e.2 ^ 1)),
+                Fci::Rpsi { bits, .. } => bits.iter_mut().for_each(|b| *b = !*b),
+                Fci::Pli => {}
+            }
+        }
+        fn rbs(blocks: &mut [Rb]) {
+            for b in blocks {
+                b.ssrc ^= 0x0f0f_0f0f;
+                b.jitter = b.jitter.wrapping_add(1);
+                b.fraction ^= 0x55;
+            }
+        }
+        fn items(its: &mut [Item]) {
+            for i in its {
+                i.value = i.value.chars().map(|c| if c.is_ascii_lowercase() { c.to_ascii_uppercase() } else if c.is_ascii_uppercase() { c.to_ascii_lowercase() } else if c == '0' { '1' } else { c }).collect();
+                i.prefix.iter_mut().for_each(|b| *b ^= 1);
+            }
+        }
+        match &mut s {
+            Spec::Sr { ssrc, blocks, rtp, .. } => {
+                *ssrc ^= 1;
+                *rtp = rtp.wrapping_add(1);
+                rbs(blocks);
+            }
+            Spec::Rr { ssrc, blocks, .. } => {
+                *ssrc ^= 1;
+                rbs(blocks);
+            }
+            Spec::Sdes { chunks, .. } => {
+                for c in chunks {
+                    c.ssrc = (c.ssrc ^ 0x10) | 0x0100_0000;
+                    items(&mut c.items);
+                }
+            }
+            Spec::Bye { sources, .. } => sources.iter_mut().for_each(|x| *x ^= 0x0f0f_0f0f),
+            Spec::App { ssrc, data, .. } => {
+                *ssrc ^= 1;
+                data.iter_mut().for_each(|b| *b = !*b);
+            }
+            Spec::Unknown { data, .. } => data.iter_mut().for_each(|b| *b = !*b),
+            Spec::Fb { fci: f, sender, media, .. } => {
+                fci(f);
+                *sender ^= 1;
+                *media ^= 1;
+            }
+            Spec::Third { ssrc, payload, .. } => {
+                *ssrc ^= 1;
+                payload.iter_mut().for_each(|b| *b = !*b);
+            }
+            Spec::Compound { members } => {
+                for m in members.iter_mut() {
+                    *m = m.sibling_same_shape();
+                }
+            }
+            Spec::Pb(i) => *i = Box::new(i.sibling_same_shape()),
+            Spec::ChunkOnly(c) => {
+                c.ssrc ^= 0x10;
+                items(&mut c.items);
+            }
+            Spec::ItemOnly(i) => items(std::slice::from_mut(i)),
+            Spec::FciOnly(f) => fci(f),
+        }
+        s
+    }
+
     /// Number of nodes (used to bound generated sizes and to order shrink candidates).
     pub fn weight(&self) -> usize {
         match self {
@@ -481,6 +554,11 @@ fn gen_len(r: &mut Rng, cfg: &GenCfg, limit: usize) -> usize {
 }
 
 fn gen_count(r: &mut Rng, cfg: &GenCfg, limit: usize) -> usize {
+    if cfg.big && cfg.invalid_pm > 0 && r.chance(1, 400) {
+        // far beyond the limit, around the widths of narrow counters (the count modulo 256 or
+        // 65536 is a legal count again)
+        return *r.pick(&[255usize, 256, 257, 260, 287, 288, 300, 511, 512, 543]);
+    }
     if r.below(1000) < cfg.invalid_pm {
         return limit + 1 + r.below(2);
     }
